@@ -274,7 +274,7 @@ class Filter:
         except (LiquidTypeError, FilterArgumentError) as err:
             err.token = self.token
             raise err
-        except (ValueError, ArithmeticError, LookupError, AttributeError) as err:
+        except (ValueError, ArithmeticError, LookupError, AttributeError, OSError) as err:
             # For example, inf or nan where a filter needs an integer, a decimal
             # conversion error, or bytes that don't decode to text.
             raise FilterError(f"{self.name}: {err}", token=self.token) from err
@@ -292,7 +292,7 @@ class Filter:
         except (LiquidTypeError, FilterArgumentError) as err:
             err.token = self.token
             raise err
-        except (ValueError, ArithmeticError, LookupError, AttributeError) as err:
+        except (ValueError, ArithmeticError, LookupError, AttributeError, OSError) as err:
             # For example, inf or nan where a filter needs an integer, a decimal
             # conversion error, or bytes that don't decode to text.
             raise FilterError(f"{self.name}: {err}", token=self.token) from err
